@@ -114,7 +114,11 @@ func thorough(prop *Property, p *Prog, rep *Report, repo string) {
 		expect  string
 	}
 	var jobs []job
+	only := os.Getenv("SC_SELFTEST_ONLY")
 	runVariant := func(id string, overlay map[string][]byte, quiet bool, expect string) {
+		if only != "" && !strings.Contains(id, only) {
+			return
+		}
 		total++
 		jobs = append(jobs, job{id, overlay, quiet, expect})
 	}
@@ -124,7 +128,7 @@ func thorough(prop *Property, p *Prog, rep *Report, repo string) {
 	}
 	runJobs := func() {
 		outs := make([]jobOut, len(jobs))
-		sem := make(chan struct{}, 8)
+		sem := make(chan struct{}, 10)
 		var wg sync.WaitGroup
 		for i := range jobs {
 			wg.Add(1)
@@ -228,6 +232,28 @@ func thorough(prop *Property, p *Prog, rep *Report, repo string) {
 			continue
 		}
 		runVariant("seeded/"+filepath.Base(d), ov, false, "")
+	}
+	// behaviour-preserving refactorings written independently of the rules
+	// (unified diffs): no verdict of any property may change under them
+	rdirs, _ := filepath.Glob(filepath.Join(verifDir(), "refactorings", "*"))
+	sort.Strings(rdirs)
+	for _, d := range rdirs {
+		pb, err := os.ReadFile(filepath.Join(d, "patch.diff"))
+		if err != nil {
+			continue
+		}
+		id := "refactorings/" + filepath.Base(d)
+		if only != "" && !strings.Contains(id, only) {
+			continue
+		}
+		ov, err := applyUnifiedDiff(repo, string(pb))
+		if err != nil {
+			total++
+			skipped++
+			results = append(results, result{id, "skipped", "patch does not apply to the current tree: " + err.Error()})
+			continue
+		}
+		runVariant(id, ov, true, "")
 	}
 	// variants (find/replace)
 	files, _ := filepath.Glob(filepath.Join(verifDir(), "variants", "*.json"))
